@@ -92,36 +92,43 @@ FilterIn(values, vmin, vmax) ==
   ELSE IF vmax = NoVal THEN Max(values) < vmin
   ELSE Cardinality({v \in values : v < vmin}) = Cardinality({v \in values : v <= vmax})
 
-FilterNotIn(values, vmin, vmax) ==
+FilterNotInV(values, vmin, vmax, onBound) ==
   IF values = {} THEN FALSE
-  ELSE IF NotInPrunesOnBound
+  ELSE IF onBound
        THEN (vmax # NoVal /\ vmax \in values) \/ (vmin # NoVal /\ vmin \in values)
        ELSE vmin # NoVal /\ vmin = vmax /\ vmin \in values
 
-FilterVal(op, c, vmin, vmax) ==
+FilterNotIn(values, vmin, vmax) == FilterNotInV(values, vmin, vmax, NotInPrunesOnBound)
+
+FilterValV(op, c, vmin, vmax, onBound) ==
   IF op = "in" THEN FilterIn(c, vmin, vmax)
-  ELSE IF op = "not in" THEN FilterNotIn(c, vmin, vmax)
+  ELSE IF op = "not in" THEN FilterNotInV(c, vmin, vmax, onBound)
   ELSE LET val == Only(c) IN
        \/ vmax # NoVal /\ ((op \in {"==", ">=", "="} /\ val > vmax) \/ (op = ">" /\ val >= vmax))
        \/ vmin # NoVal /\ ((op \in {"==", "<=", "="} /\ val < vmin) \/ (op = "<" /\ val <= vmin))
        \/ op = "!=" /\ vmax # NoVal /\ vmin # NoVal /\ vmax = vmin /\ val = vmax
 
+FilterVal(op, c, vmin, vmax) == FilterValV(op, c, vmin, vmax, NotInPrunesOnBound)
+
 (* filter_out_stats(rg, and_filters): TRUE = exclude the row group *)
-FilterOutStats(rg, g) ==
+FilterOutStatsV(rg, g, onBound) ==
   \/ Len(rg.rows) = 0
   \/ \E col \in {"x", "y"} : \E ai \in DOMAIN g :
        /\ g[ai].col = col
        /\ LET s == StatsOf(rg, col) IN
-          /\ s.has
-          /\ \/ s.nulls = s.n                              \* "skip row groups with no valid values"
-             \/ FilterVal(g[ai].op, g[ai].c, s.min, s.max)
+          \* the writer records null_count in every chunk, min/max only when statistics are requested
+          \/ s.nulls = s.n                                  \* "skip row groups with no valid values"
+          \/ s.has /\ FilterValV(g[ai].op, g[ai].c, s.min, s.max, onBound)
 (* filter_out_cats: the partition value compared as a degenerate range *)
-FilterOutCats(rg, g) ==
+FilterOutCatsV(rg, g, onBound) ==
   /\ rg.p # NoPart
-  /\ \E ai \in DOMAIN g : g[ai].col = "p" /\ FilterVal(g[ai].op, g[ai].c, rg.p, rg.p)
+  /\ \E ai \in DOMAIN g : g[ai].col = "p" /\ FilterValV(g[ai].op, g[ai].c, rg.p, rg.p, onBound)
+FilterOutStats(rg, g) == FilterOutStatsV(rg, g, NotInPrunesOnBound)
+FilterOutCats(rg, g)  == FilterOutCatsV(rg, g, NotInPrunesOnBound)
 
-Keep(rg, prog) == \E gi \in DOMAIN Groups(prog) :
-                     ~FilterOutStats(rg, Groups(prog)[gi]) /\ ~FilterOutCats(rg, Groups(prog)[gi])
+KeepV(rg, prog, onBound) == \E gi \in DOMAIN Groups(prog) :
+                     ~FilterOutStatsV(rg, Groups(prog)[gi], onBound) /\ ~FilterOutCatsV(rg, Groups(prog)[gi], onBound)
+Keep(rg, prog) == KeepV(rg, prog, NotInPrunesOnBound)
 
 (* MECHANISM: row filter (ParquetFile._column_filter on the pruned frame) *)
 RowAtom(rg, r, a) ==        \* pandas element-wise semantics: NaN/None compares False, != and ~isin give True
